@@ -1371,6 +1371,11 @@ static int asn1_char_is_printable(int a)
 int asn1_string_is_printable_string(const char *a, size_t alen)
 {
 	size_t i;
+
+	// the decoders refuse empty strings, so do not produce them either
+	if (!a || !alen) {
+		return 0;
+	}
 	for (i = 0; i < alen; i++) {
 		if (asn1_char_is_printable(a[i]) != 1) {
 			return 0;
@@ -1448,6 +1453,11 @@ int asn1_printable_string_from_der_ex(int tag, const char **a, size_t *alen, con
 int asn1_string_is_ia5_string(const char *a, size_t alen)
 {
 	size_t i;
+
+	// the decoders refuse empty strings, so do not produce them either
+	if (!a || !alen) {
+		return 0;
+	}
 	for (i = 0; i < alen; i++) {
 		if (!isascii(a[i])) {
 			return 0;
